@@ -44,7 +44,7 @@ def bounded(tier, seed):
 		r = run_case(c)
 		n += 1
 		if len(sample) < 2 and n % 97 == 3:
-			sample.append({'case': {k: (v if k != 'dists' else v[:8]) for k, v in c.items()}, 'result': {'ok': r['ok']}})
+			sample.append({'case': {k: (v if k != 'dists' else v[:8]) for k, v in c.items()}, 'result': {'ok': r.get('ok')}})
 		if not r.get('ok'):
 			failures.append({'case': c, 'expected': r.get('expected'), 'actual': r.get('actual'), 'class': 'tie-order'})
 			if len(failures) >= 3:
